@@ -468,6 +468,20 @@ def r27_for_vec(src, item, ed, opts):
         ed.count("R27")
 
 
+def r28_let_type(src, item, ed, opts):
+    """`let PAT = E` -> `let PAT: T = E` for lets named in the sidecar (let_types=[{select="mutx", ty="T"}]):
+    an explicit annotation of the type rustc infers anyway (if it were a different type the unit would
+    not compile); needed where ghost text mentions the variable before inference has fixed its type"""
+    for sp in opts.get("let_types", []):
+        c = [n for n in nodes_of(item, "let") if n["pat_text"] == sp["select"].replace(" ", "")]
+        k = sp.get("n", 0)
+        if k >= len(c):
+            raise LostAnchor(f"let `{sp['select']}` #{k} of {item['path']}")
+        n = c[k]
+        ed.insert(n["pat"][1], f": {sp['ty']}", "R28")
+        ed.count("R28")
+
+
 def r24_call_shim(src, item, ed, opts):
     """generic named-site shim (covers R5, R6, R8, R11, R17): a call / method call / macro named
     in the sidecar is replaced by a call to a prelude shim whose spec is the std contract.
@@ -689,6 +703,8 @@ def extract_fn(src, spec, unit_rules):
         RULES[rname](src, item, ed, spec)
     if "shims" in spec and "R24" not in rules:
         r24_call_shim(src, item, ed, spec)
+    if "let_types" in spec:
+        r28_let_type(src, item, ed, spec)
     if "R9" in rules:
         r9_visibility(src, item, ed, spec)
 
